@@ -155,7 +155,7 @@ CHECKS = {
     'C16': (
         'fault enumeration over message boundaries: every procedure x every boundary k x 4 cut kinds, plus sampled delays',
         'exploration',
-        'A catalogue of procedures that await the peer (37 after the extension round: (GATT read/write/discover/subscribe/indicate, pairing, LE CoC '
+        'A catalogue of procedures that await the peer (37 after the extension round: GATT read/write/discover/subscribe/indicate, pairing, LE CoC '
         'and classic channel connect/disconnect/drain, EATT, ACL disconnect, remote features/name, SDP, RFCOMM, AVDTP, '
         'plain HCI command, ...) is run un-faulted to count the messages M crossing the HCI taps; then for every k in 0..M and '
         'each of local disconnect / remote disconnect / link loss / transport loss the run is repeated on a fresh world '
